@@ -3,6 +3,7 @@ import DaeVerif.C13.DrainProofs
 import DaeVerif.C13.KeysProofs
 import DaeVerif.C13.TQStep
 import DaeVerif.C13.EPProofs
+import DaeVerif.C13.EPC
 /-!
 # C13 — helper lemmas (index)
 
